@@ -460,8 +460,11 @@ def step (st : St) (line : String) : St × String :=
   | ["gserve", gid, method, path, host, hdrs, accept] =>
     match gid.toNat? >>= lookup st.groups with
     | some grp =>
-      if grp.routers.any (fun e => st.tainted.contains e.1 ∨ (matcherHosts e.2).any st.taintedHosts.contains) then (st, "unsupported")
-      else (st, fmtServe (grp.serveHTTP env st.hostsTab st.pc st.scripts st.routers (mkReq method path host hdrs accept)))
+      let req := mkReq method path host hdrs accept
+      let corsOutside := (req.headers.get hACRH).any (· ≥ 128) ∧
+        grp.routers.any (fun e => match st.routers.get? e.1 with | some r => ¬ r.cors.deny | none => false)
+      if grp.routers.any (fun e => st.tainted.contains e.1 ∨ (matcherHosts e.2).any st.taintedHosts.contains) ∨ corsOutside then (st, "unsupported")
+      else (st, fmtServe (grp.serveHTTP env st.hostsTab st.pc st.scripts st.routers req))
     | none => (st, "bad-op")
   -- handler behaviour
   | ["script", hid, acts] =>
